@@ -26,8 +26,12 @@ class Tol:
         e = self.base * max(1.0, cand_layer.sigma) + cand_layer.err + self.extra
         if ref_layer is not None:
             e += self.base * (max(1.0, ref_layer.sigma) - 1.0) + ref_layer.err
-        if self.tau_seg and (cand_layer.transformed or (ref_layer is not None and ref_layer.transformed)):
-            e += self.tau_seg * max(cand_layer.nseg, ref_layer.nseg if ref_layer is not None else 0, 1)
+        # a reuse with the identity transform is not visible in the output, so the reuse allowance applies
+        # whenever reuse is enabled
+        if self.tau_seg:
+            # picosvg accepts a deviation of `tolerance` per argument of every *relative* segment: it adds up
+            # along the path, in both coordinates (factor 1.5 ~ sqrt(2) + interior of curves)
+            e += 1.5 * self.tau_seg * max(cand_layer.nseg, ref_layer.nseg if ref_layer is not None else 0, 1)
         return e
 
 
@@ -90,7 +94,7 @@ def compare_paint(ref, got, pts, eps_out, fg_list=FGS, stats=None):
         dt = dt + got.field_dt(pts)
         if ref.kind == "solid":
             dt = dt * 0  # candidate must be constant = ref anyway
-    dt = dt + 1e-4
+    dt = dt + 0.0006  # stop offsets are themselves quantised (3 decimals in SVG, F2Dot14 in COLR)
     decisive = dt <= 0.15
     info = {"decisive": int(decisive.sum()), "points": len(pts), "max_dt_allow": float(dt[decisive].max()) if decisive.any() else None}
     if not decisive.any():
@@ -232,3 +236,23 @@ def compare_layers(ref_layers, got_layers, tol, ngrid=24, check_palette=True):
             if se:
                 problems.append({"what": "colour line content: " + se, "layer": i})
     return problems, stats
+
+
+def max_matching(adj, n_right):
+    """Maximum bipartite matching (augmenting paths). adj[i] = admissible right nodes of left node i."""
+    match_r = [-1] * n_right
+
+    def try_(i, seen):
+        for j in adj[i]:
+            if j in seen:
+                continue
+            seen.add(j)
+            if match_r[j] == -1 or try_(match_r[j], seen):
+                match_r[j] = i
+                return True
+        return False
+
+    for i in range(len(adj)):
+        try_(i, set())
+    left = {i: j for j, i in enumerate(match_r) if i != -1}
+    return left
